@@ -36,7 +36,7 @@ func Parse(filename string, data []byte) (*File, error) {
 	}
 	np := round(len(hdrPrefix), 4)
 	hdrLen := *(*uint32)(unsafe.Pointer(&data[np]))
-	if hdrLen > pageSize {
+	if hdrLen < uint32(np+4) || hdrLen > pageSize {
 		return corrupt()
 	}
 	meta := data[np+4 : hdrLen]
